@@ -29,10 +29,14 @@ def scenarios():
     add('script-not-executable', 'test.sh', 'InvalidInterestingnessTestError', script_mode='644')
     add('insane-input', 'a.c', 'InsaneTestCaseError', predicate='exit 1')
     add('insane-input-signal', 'a.c', 'InsaneTestCaseError', predicate='kill -9 $$')
+    # an unknown argument must be refused whatever the input looks like (also inputs on which the pass has nothing to do)
+    texts = {'': 'keep1 (a ? b : c) 0x10;\nint x = {1};\n', ':plain-words': 'keep1\nplain words only\n', ':one-word': 'keep1\n',
+             ':digits-only': 'keep1 1 2 3\n', ':blank-lines': 'keep1\n\n   \n'}
     for p in ['balanced', 'ints', 'special', 'peep', 'ternary', 'indent']:
-        add(f'unknown-argument:{p}', 'bogus-arg', 'UnknownArgumentError', startup=False,
-            tree={'a.c': {'text': 'keep1 (a ? b : c) 0x10;\nint x = {1};\n'}, 'other.txt': {'text': 'o'}},
-            groups={'first': [], 'main': [{'name': p, 'arg': 'bogus-arg'}], 'last': []}, external={'clang-format': '/bin/true'})
+        for tag, text in texts.items():
+            add(f'unknown-argument:{p}{tag}', 'bogus-arg', 'UnknownArgumentError', startup=False,
+                tree={'a.c': {'text': text}, 'other.txt': {'text': 'o'}},
+                groups={'first': [], 'main': [{'name': p, 'arg': 'bogus-arg'}], 'last': []}, external={'clang-format': '/bin/true'})
     return out
 
 
